@@ -21,7 +21,7 @@ use poulpy_core::{
     },
 };
 use poulpy_hal::{
-    api::{ScratchOwnedAlloc, ScratchOwnedBorrow},
+    api::{ScratchOwnedBorrow},
     layouts::{DataRef, Module, NoiseInfos, ReaderFrom, ScratchOwned, VecZnx, WriterTo, ZnxInfos, ZnxView, ZnxViewMut},
     source::Source,
 };
@@ -348,7 +348,7 @@ fn run<B: FullBackend>(m: &Module<B>, c: &Case, thorough: bool) -> Verdict {
     let pk_enc = c.kind() == 1;
     let b = c.base2k as usize;
     let fail = |what: &str, d: String| Verdict::fail(format!("{kind}|{what}"), format!("backend={} {kind}: {d}\ncase={c:?}", c.be.name()));
-    let mut scratch = ScratchOwned::<B>::alloc(1 << 22);
+    let mut scratch = pzv_be::dirty_scratch::<B>(1 << 22);
     let ni = c.noise_infos();
     let (limb, scale) = ni.target_limb_and_scale(b);
     let e_max = (ni.bound * scale).round() as i128;
